@@ -22,7 +22,7 @@ RULE = (
     "not judged. Any exception or a call longer than 120 s on a judged case is a violation. Non-trivial: the "
     "operand boundaries cross, or one operand lies inside the other's box."
 )
-MANDATORY = ["operands-with-history", "op:|", "op:&", "op:-", "op:^", "op:+", "op:*", "unary", "program", "curved", "crossing", "polygon-exact",
+MANDATORY = ["operands-with-history", "millimetre-drawing", "op:|", "op:&", "op:-", "op:^", "op:+", "op:*", "unary", "program", "curved", "crossing", "polygon-exact",
              "kind:connected", "kind:disjoint", "kind:simple", "kind:empty", "kind:whole"]
 CONSTANTS = {"margin": probes.MARGIN, "margin_curved": oc.MARGIN_CURVED, "min_sin": oc.MIN_SIN, "min_kappa": oc.MIN_KAPPA}
 
@@ -146,7 +146,9 @@ def judge_pair(ctx, case):
         strata.append("crossing")
     if exact:
         strata.append("polygon-exact")
-    nontriv = ncross > 0 or case.get("config") == "nested"
+    nontriv = ncross > 0 or case.get("config", "").startswith("nested")
+    if case.get("config", "").endswith("-tiny"):
+        strata.append("millimetre-drawing")
     if case.get("pre_a") and exact:
         strata.append("operands-with-history")
     ctx.evaluated(case, nontriv, strata)
@@ -248,6 +250,16 @@ def pair_cases(draw, curved):
     base = draw(oc.operand_pair(curved))
     base["op"] = draw(st.sampled_from(oc.OPS))
     base["alias"] = draw(st.booleans())
+    if not curved and base["nk"] in ("int", "frac") and draw(st.integers(0, 5)) == 0:
+        # the same exact drawing in millimetres (edges of ~1e-3 units)
+        from fractions import Fraction as F
+
+        f = F(1, 400 * int(S.base_radius(base["nk"])))
+        base["a"] = lib.spec_map(base["a"], lambda p: (p[0] * f, p[1] * f))
+        base["b"] = lib.spec_map(base["b"], lambda p: (p[0] * f, p[1] * f))
+        base["config"] = base["config"] + "-tiny"
+        base.pop("pre_a", None)
+        base.pop("pre_b", None)
     return base
 
 
